@@ -105,8 +105,11 @@ def run(tier, replay=None):
         s, r = by[b["run"]]
         prog = s["name"].split("#")[0]
         fk, fv = list(s["faults"].items())[0]
+        # programs with a merge over an unforked producer (C02 finding): the run fails in the
+        # merge itself, whatever was injected
+        um = ":unforked-merge" if sem[prog].get("weak") and not b["what"].startswith("unforked-merge") else ""
         viols.append({
-            "key": "C06:%s:%s:%s:%s" % (prog, fk, fv, b["what"].split(":")[0][:60]),
+            "key": "C06:%s:%s:%s:%s%s" % (prog, fk, fv, b["what"].split(":")[0][:60], um),
             "what": "C06 fault %s at %s (program %s): [%s] %s" % (fv, fk, prog, b["job"], b["what"]),
             "replay": {"spec.json": json.dumps(dict(s, sched={"kind": "script", "script": r["script"]})),
                        "program.mro": s["mro"],
